@@ -1025,6 +1025,27 @@ fn build_extra(thorough: bool) -> Vec<Doc> {
         out.push(t);
     }
 
+    // ---- bgzipped FASTA with fai + gzi (data = Format::Bgzf, set "fasta.gz"; the fai document points to it, the gzi
+    //      document is named gzi-of-fastagz-indexed)
+    {
+        let fa = get("fasta-w60");
+        let fl: Vec<usize> = (1..fa.bytes.len() / 250).map(|i| i * 250).collect();
+        let data = bgzip_at(&fa.bytes, &fl);
+        let mut d = make_doc(Format::Bgzf, "fastagz-indexed", "fasta.gz", data, false);
+        if let Some(inner) = d.inner.as_mut() {
+            let iw = walk::text(&fa.bytes, b"\t", None);
+            let i = Arc::make_mut(inner);
+            i.boundaries = Arc::new(iw.boundaries);
+            i.record_ends = Arc::new(iw.record_ends);
+        }
+        let mut f = make_doc(Format::Fai, "fai-of-fastagz-indexed", "fasta.gz", fai_for(&fa), false);
+        f.index_of = Some(d.name.clone());
+        let g = make_doc(Format::Gzi, "gzi-of-fastagz-indexed", "fasta.gz", gzi_for(&d), false);
+        out.push(d);
+        out.push(f);
+        out.push(g);
+    }
+
     // ---- CSI of a bgzipped SAM (the quick corpus has none)
     if find(&base, "csi-of-samgz-mapped-f2").is_none() {
         let d0 = get("samgz-mapped-f2");
